@@ -37,7 +37,7 @@ SHARDS = {"quick": 8, "thorough": 16}
 RULE = ("Hypothesis draws (a) folders of 1-5 files: synthetic HDF5 files with 1-12 curves (optional grid "
         "metadata, curves with/without spring constant and innate tip position), recorded files from "
         "tests/data (22 JPK single curves/maps, the AFM-workshop CSV), junk files, nesting depth 0-2, target = "
-        "folder or one file, API load_group / IndentationGroup, metadata override; (b) one curve x "
+        "folder or one file, API load_group / IndentationGroup, metadata override, or a list of 1-3 files/sub-folders given to nanite.read.load_data (documented input); (b) one curve x "
         "{spring constant present/absent} x {tip position present/absent} x {append, +=} on an empty or "
         "populated group; (c) a map file (synthetic: grid 1x1..4x4, 1-12 curves on distinct pixels in "
         "scrambled order, grid index written or derived from position with +-0.3 px jitter, off-centre "
@@ -64,6 +64,10 @@ ASSUMPTIONS = [
     "step list changes (apply_preprocessing documents 'Reset rating')",
     "map values are compared with relative tolerance 1e-12 (the unit conversion cp*1e9 is one multiplication; "
     "1e-12 allows for a different but equivalent formulation such as cp/1e-9)",
+    "a curve fitted with a model that has no parameter named 'E' (shipped: power_layer_clifford_2009 with E_S/E_L; "
+    "user models) has no value for 'fit: Young's modulus': its pixel is NaN with one DataMissingWarning and the "
+    "map of the other curves is still delivered (the fitter's plateau search sets the precedent: it rejects such "
+    "models with a message instead of a KeyError)",
     "rate_quality is only called on curves that are currently fitted (rating an unfitted, preprocessed curve "
     "raises KeyError: listed defect F6 of property C09/C17, not part of this property)",
     "exceptions raised by fit_model itself are not this property's business: the operation is counted "
@@ -71,7 +75,8 @@ ASSUMPTIONS = [
 ]
 
 FEATURES = {"E": "fit: Young's modulus", "cp": "fit: contact point", "rating": "fit: rating"}
-MODELS = ["hertz_para", "hertz_cone", "sneddon_spher_approx", "hertz_pyr3s"]
+#: the last one has no parameter named "E" (its moduli are E_S and E_L)
+MODELS = ["hertz_para", "hertz_cone", "power_layer_clifford_2009", "sneddon_spher_approx", "hertz_pyr3s"]
 PRE = [["compute_tip_position"],
        ["compute_tip_position", "correct_force_offset"],
        ["compute_tip_position", "correct_force_offset", "correct_tip_offset"],
@@ -198,6 +203,17 @@ def st_load_case(draw):
     target = draw(st.sampled_from(["file", "dir", "dir", "dir", "file"]))
     if target == "file":
         target = draw(st.integers(0, nfiles - 1))
+    if draw(st.sampled_from([False, False, False, True, False, False, False])):
+        # a list of files / sub-folders handed to nanite.read.load_data
+        for ent in files:
+            if ent["t"] == "csv":
+                ent["t"], ent["name"] = "rec", RECORDED_SINGLE[-1]
+            if ent["t"] == "synth":
+                for cv in ent["file"]["curves"]:
+                    cv["has_k"] = True
+        choice = st.one_of(st.integers(0, nfiles - 1), st.sampled_from([["a"], ["c"], ["a", "b"], []]))
+        return {"kind": "load", "files": files, "target": draw(st.lists(choice, min_size=1, max_size=3)),
+                "as_str": draw(st.booleans())}
     ov = draw(st.sampled_from(["safe", "none", "k", "none", "k+safe"]))
     override = {}
     if "safe" in ov:
@@ -208,7 +224,8 @@ def st_load_case(draw):
         override["spring constant"] = draw(st.floats(0.01, 20.0))
     return {"kind": "load", "files": files, "target": target, "override": override or None,
             "api": draw(st.sampled_from(["load_group", "IndentationGroup"])),
-            "with_callback": draw(st.sampled_from([True, True, True, False]))}
+            "with_callback": draw(st.sampled_from([True, True, True, False])),
+            "as_str": draw(st.booleans())}
 
 
 @st.composite
@@ -398,6 +415,8 @@ def _check_load(case, ctx, root, afmformats, MissingMetaDataError, nanite):
             p = d / f"f{i}_{ent['name']}"
             write_junk(p, ent["name"])
             written.append((p, t, None, False))
+    if isinstance(case["target"], list):
+        return _check_load_list(case, ctx, base, written, afmformats, nanite)
     if case["target"] == "dir":
         target = base
         involved = [w for w in written if w[1] != "junk"]
@@ -442,9 +461,10 @@ def _check_load(case, ctx, root, afmformats, MissingMetaDataError, nanite):
         kwargs["meta_override"] = dict(override)
     loader = nanite.load_group if api == "load_group" else nanite.IndentationGroup
     grp = None
+    target_arg = str(target) if case.get("as_str") else target
     if refuse:
         try:
-            loader(target, **kwargs)
+            loader(target_arg, **kwargs)
             raised = None
         except MissingMetaDataError as exc:
             raised = exc
@@ -459,7 +479,7 @@ def _check_load(case, ctx, root, afmformats, MissingMetaDataError, nanite):
         check_callbacks(ctx, cb, desc, expect_complete=False)
         return
     with ctx.no_raise("load-raises", desc):
-        grp = loader(target, **kwargs)
+        grp = loader(target_arg, **kwargs)
     if grp is None:
         return
     got = [(pathlib.Path(i.path), i.enum) for i in grp]
@@ -489,6 +509,43 @@ def _check_load(case, ctx, root, afmformats, MissingMetaDataError, nanite):
         ctx.check("spring constant" in i.metadata or "tip position" in i, "member-without-spring-constant-and-tip",
                   desc, f"{pathlib.Path(i.path).name}[{i.enum}]")
     ctx.extra["curves_loaded"] = ctx.extra.get("curves_loaded", 0) + len(grp)
+    # read.get_data_paths_enum: "a list with paths and their internal enumeration"
+    pe = None
+    with ctx.no_raise("paths-enum-raises", desc):
+        pe = nanite.read.get_data_paths_enum(target)
+    if pe is not None:
+        ctx.check([(pathlib.Path(a), b) for a, b in pe] == expected, "paths-enum", desc,
+                  f"get_data_paths_enum: {[(pathlib.Path(a).name, b) for a, b in pe]}, "
+                  f"expected {[(q.name, e) for q, e in expected]}")
+
+
+def _check_load_list(case, ctx, base, written, afmformats, nanite):
+    """nanite.read.load_data documents `path` as "str or pathlib.Path or list of str or list of
+    pathlib.Path": a list of files and/or folders (entries: index into files, or a sub-folder name)"""
+    entries = []
+    for t in case["target"]:
+        entries.append(written[t % len(written)][0] if isinstance(t, int) else base.joinpath(*t))
+    entries = [e for e in entries if e.exists()]
+    by_path = {w[0]: w for w in written if w[1] != "junk"}
+    expected = []
+    for ent in entries:
+        for f in afmformats.find_data(ent, modality="force-distance"):
+            if f not in by_path:
+                raise HarnessError(f"afmformats.find_data found {f}, not written by the harness")
+            expected += [(f, e) for e in by_path[f][2]]
+    desc = {"api": "read.load_data", "target": "list", "as_str": bool(case.get("as_str"))}
+    ctx.note_case(case, nontrivial=bool(expected), classes=["load:list-of-paths", f"load:list-len={len(entries)}"])
+    arg = [str(e) for e in entries] if case.get("as_str") else list(entries)
+    cb = []
+    data = None
+    with ctx.no_raise("load-list-of-paths-raises", desc):
+        data = nanite.read.load_data(arg, callback=cb.append)
+    if data is None:
+        return
+    got = [(pathlib.Path(i.path), i.enum) for i in data]
+    ctx.check(got == expected and all(isinstance(i, nanite.Indentation) for i in data), "curve-order", desc,
+              f"loaded {[(q.name, e) for q, e in got]}, expected {[(q.name, e) for q, e in expected]}")
+    check_callbacks(ctx, cb, desc, expect_complete=bool(expected))
 
 
 # ---------------------------------------------------------------------------
@@ -575,7 +632,10 @@ def curve_value(idnt, feat, model_state):
         if not fp.get("success", False):
             return float("nan")
         pf = fp["params_fitted"]
-        return float(pf["E"].value) if feat == "E" else float(pf["contact_point"].value) * 1e9
+        if feat == "E":
+            # a model without a parameter "E" has no value for this feature (see ASSUMPTIONS)
+            return float(pf["E"].value) if "E" in pf else float("nan")
+        return float(pf["contact_point"].value) * 1e9
     if model_state["rated"]:
         return float(model_state["rating"])
     return float("nan")
@@ -587,6 +647,10 @@ def check_maps(ctx, qm, curves, feats, desc, stats):
     nx, ny = stats["shape"]
     for feat in feats:
         d = dict(desc, feature=feat)
+        if feat == "E":
+            d["curve_fitted_with_model_without_E"] = any(
+                i.fit_properties.get("success", False) and "E" not in i.fit_properties["params_fitted"]
+                for i, _, _ in curves)
         expect = np.full((ny, nx), np.nan)
         lacking = []
         for idnt, (x, y), ms in curves:
@@ -687,8 +751,10 @@ def _check_qmap(case, ctx, root, nanite):
     qm = grp = None
     with ctx.no_raise("load-raises", desc):
         if case["api"] == "QMap_path":
-            qm = nanite.QMap(path)
+            cb = []
+            qm = nanite.QMap(path, callback=cb.append)
             grp = qm.group
+            check_callbacks(ctx, cb, desc, expect_complete=True)
         else:
             grp = nanite.load_group(path) if case["api"] == "load_group" else nanite.IndentationGroup(path)
             qm = nanite.QMap(grp)
@@ -763,8 +829,10 @@ def _check_qmap(case, ctx, root, nanite):
             if not ok:
                 classes.add("qmap:fit-unsuccessful")
             else:
-                new = (idnt.fit_properties["params_fitted"]["E"].value,
-                       idnt.fit_properties["params_fitted"]["contact_point"].value)
+                pf = idnt.fit_properties["params_fitted"]
+                new = (pf["E"].value if "E" in pf else None, pf["contact_point"].value)
+                if "E" not in pf:
+                    classes.add("qmap:fitted-with-model-without-E")
                 if e in last_vals and last_vals[e] != new:
                     classes.add("qmap:refit-changed-values")
                 last_vals[e] = new
@@ -848,9 +916,9 @@ def dispatch(case, ctx):
 
 def run(ctx):
     ctx.enumerate(fixed_cases(), dispatch, label="recorded-files")
-    ctx.hypothesis(st_load_case(), dispatch, ctx.scale(640, 16000), label="load")
-    ctx.hypothesis(st_append_case(), dispatch, ctx.scale(320, 4000), label="append")
-    ctx.hypothesis(st_qmap_case(), dispatch, ctx.scale(640, 16000), label="qmap")
+    ctx.hypothesis(st_load_case(), dispatch, ctx.scale(560, 16000), label="load")
+    ctx.hypothesis(st_append_case(), dispatch, ctx.scale(240, 4000), label="append")
+    ctx.hypothesis(st_qmap_case(), dispatch, ctx.scale(520, 16000), label="qmap")
 
 
 def replay(case, ctx):
